@@ -53,6 +53,7 @@ class PF:
 
     def __init__(self, p, k, f):
         self.p, self.k, self.q = p, k, p ** k
+        self.radix = p
         self.f = self.digits(f, k + 1)            # k+1 coefficients
         lc = self.f[k]
         self.ilc = pow(lc, p - 2, p) if p > 2 else 1
@@ -60,6 +61,9 @@ class PF:
         self.red = tuple(((p - c) * self.ilc) % p for c in self.f[:k])
         self.zero = tuple([0] * k)
         self.one = tuple([1] + [0] * (k - 1))
+
+    def fnum(self):
+        return sum(c * self.p ** i for i, c in enumerate(self.f))
 
     def digits(self, n, cnt):
         out = []
@@ -218,6 +222,107 @@ def find_primitive(rng, p, k, mod):
             while g and g[-1] == 0:
                 g.pop()
             return g
+
+
+class TF:
+    """the specification of a tower: F_qb[Y]/(h) with the base field F_qb = a PF; elements are tuples of k base elements.
+    Same interface as PF (elt/num/add/sub/neg/mul/inv/div/zero/one/irreducible) with radix qb instead of p."""
+
+    def __init__(self, base, k, h):
+        self.b, self.k, self.p, self.radix = base, k, base.p, base.q
+        self.q = base.q ** k
+        self.f = self.digs(h, k + 1)
+        self.ilc = base.inv(self.f[k]) if self.f[k] != base.zero else None
+        self.red = tuple(base.neg(base.mul(c, self.ilc)) for c in self.f[:k]) if self.ilc else None
+        self.zero = tuple([base.zero] * k)
+        self.one = tuple([base.one] + [base.zero] * (k - 1))
+
+    def digs(self, n, cnt):
+        out = []
+        for _ in range(cnt):
+            out.append(self.b.elt(n % self.radix))
+            n //= self.radix
+        return tuple(out)
+
+    def elt(self, n):
+        return self.digs(n, self.k)
+
+    def num(self, a):
+        r = 0
+        for c in reversed(a):
+            r = r * self.radix + self.b.num(c)
+        return r
+
+    def fnum(self):
+        return self.num(self.f[:self.k]) + self.b.num(self.f[self.k]) * self.radix ** self.k
+
+    def add(self, a, b):
+        return tuple(self.b.add(x, y) for x, y in zip(a, b))
+
+    def sub(self, a, b):
+        return tuple(self.b.sub(x, y) for x, y in zip(a, b))
+
+    def neg(self, a):
+        return tuple(self.b.neg(x) for x in a)
+
+    def mul(self, a, b):
+        B, k = self.b, self.k
+        prod = [B.zero] * (2 * k - 1)
+        for i, x in enumerate(a):
+            if x != B.zero:
+                for j, y in enumerate(b):
+                    prod[i + j] = B.add(prod[i + j], B.mul(x, y))
+        for d in range(2 * k - 2, k - 1, -1):
+            c = prod[d]
+            if c != B.zero:
+                for j in range(k):
+                    prod[d - k + j] = B.add(prod[d - k + j], B.mul(c, self.red[j]))
+        return tuple(prod[:k])
+
+    def pow(self, a, e):
+        r, b = self.one, a
+        while e > 0:
+            if e & 1:
+                r = self.mul(r, b)
+            b = self.mul(b, b)
+            e >>= 1
+        return r
+
+    def inv(self, a):
+        return self.pow(a, self.q - 2)
+
+    def div(self, a, b):
+        return self.mul(a, self.inv(b))
+
+    def polmod_zero(self, g):
+        """is f divisible by the monic polynomial g (list of base elements, degree d)?"""
+        B = self.b
+        a = list(self.f)
+        d = len(g) - 1
+        while len(a) - 1 >= d:
+            c = a[-1]
+            if c != B.zero:
+                off = len(a) - 1 - d
+                for j, y in enumerate(g):
+                    a[off + j] = B.sub(a[off + j], B.mul(c, y))
+            a.pop()
+        return all(x == B.zero for x in a)
+
+    def irreducible(self):
+        """degree k over F_qb and no monic divisor of degree 1..k/2 (brute force; None when the search is too large)"""
+        B, k = self.b, self.k
+        if self.f[k] == B.zero:
+            return False
+        if k == 1:
+            return True
+        if self.radix ** (k // 2) > 200000:
+            return None
+        for d in range(1, k // 2 + 1):
+            for n in range(self.radix ** d):
+                g = [B.elt((n // self.radix ** i) % self.radix) for i in range(d)] + [B.one]
+                if self.polmod_zero(g):
+                    return False
+        return True
 
 
 def hash3(v):
@@ -1000,13 +1105,17 @@ def ext_part(chk, rng, tier, dist, drv=None):
     E4 = ["axpy", "axpyin", "maxpy", "maxpyin", "axmy", "axmyin"]
     exts = [("gfq", "bf", 3, 2), ("mod", "bf", 3, 3), ("gfq", "pe", 5, 3), ("gfq", "bf", 2, 5), ("mod", "bf", 7, 2), ("gfq", "pe", 2, 7),
             ("gfq", "pol", 3, 4), ("mod", "pol", 5, 2), ("gfq", "pol", 2, 8), ("mod", "pol", 11, 3), ("gfq", "bf", 1009, 4), ("gfq", "pe", 65521, 3),
-            ("mod", "bf", 2, 1), ("gfq", "bf", 13, 8)]
+            ("mod", "bf", 2, 1), ("gfq", "bf", 13, 8),
+            # towers: Extension over the non-prime base field GFqDom(p,s) (s last), and the automatic Extension<>(p,e) for composite e
+            ("gfq", "tower", 3, 2, 2), ("gfq", "tower", 2, 3, 2), ("gfq", "tower", 7, 2, 2), ("gfq", "tower", 2, 2, 4), ("gfq", "tower", 5, 3, 2),
+            ("gfq", "pe", 13, 8), ("gfq", "pe", 3, 12), ("gfq", "pe", 2, 22)]
     if tier == "thorough":
         exts += [(b, c, p, k) for b in ("gfq", "mod") for c in ("bf", "pol") for (p, k) in [(2, 2), (2, 3), (3, 5), (5, 4), (7, 3), (17, 2), (251, 2), (4099, 5)]]
     per = 10 if tier == "quick" else 80
-    for (base, ctor, p, k) in exts:
-        q = p ** k
-        line = "ext %s %s %d %d" % (base, ctor, p, k)
+    for ex in exts:
+        (base, ctor, p, k), sb = ex[:4], (ex[4] if len(ex) > 4 else 1)
+        q = (p ** sb) ** k
+        line = "ext %s %s %d %d" % (base, ctor, p, k) + (" %d" % sb if ctor == "tower" else "")
         mod = None
         if ctor == "pol":
             mod = find_irreducible(rng, p, k, monic=(p == 2 or rng.chance(1, 2))) if q <= 10**6 else None
@@ -1014,6 +1123,8 @@ def ext_part(chk, rng, tier, dist, drv=None):
                 continue
             line += " | " + " ".join(map(str, mod))
         L.append((line, "ext", (base, ctor, p, k, mod)))
+        if ctor == "pe" and k in (8, 12, 22):
+            q = p ** k
         edge = [0, 1, q - 1, p - 1, p % q, (q - 1) // 2]
         def el():
             return rng.choice(edge) if rng.chance(1, 4) else rng.range(0, q - 1)
@@ -1140,14 +1251,30 @@ def ext_part(chk, rng, tier, dist, drv=None):
             if len(t) < 13 or t[0] != "E":
                 chk.fail_input("Extension::Extension", "constructor", {"line": line}, "a field", got)
                 continue
-            q = p ** k
-            exp = [str(q if q < 2**64 else q % 2**64), str(q), str(p), str(p), str(k), str(k)]
-            if t[1:7] != exp:
+            bx = t.index("B") if "B" in t else None
+            qb, sb, birr = (int(t[bx + 1]), int(t[bx + 2]), int(t[bx + 3])) if bx else (p, 1, -1)
+            order = int(t[6])
+            q = qb ** order
+            if qb != p ** sb or sb * order != (k if ctor != "tower" else k * sb) or (ctor != "pe" and order != k):
+                chk.fail_input("Extension::Extension", "base-field", {"line": line}, "base p^s with s * order = exponent", got)
+                continue
+            expo = sb * order
+            exp = [str(q if q < 2**64 else q % 2**64), str(q), str(p), str(p), str(expo), str(order)]
+            if t[1:7] != exp and q < 2**63:
                 chk.fail_input("Extension::cardinality/characteristic/exponent", "descriptor", {"line": line}, exp, t[1:7])
             irred = int(t[8])
-            P = PF(p, k, irred)
-            if irred >= p ** (k + 1) or (k > 1 and not P.irreducible()) or P.f[k] == 0:
-                chk.fail_input("Extension::Extension", "modulus-reducible", {"line": line, "irred": irred}, "irreducible of degree %d" % k, irred)
+            if sb == 1:
+                P = PF(p, order, irred)
+            else:
+                Pb = PF(p, sb, birr)
+                if not Pb.irreducible():
+                    chk.fail_input("Extension::Extension", "base-modulus-reducible", {"line": line}, "irreducible base modulus", birr)
+                    continue
+                P = TF(Pb, order, irred)
+            irr_ok = P.irreducible() if order > 1 else True
+            if irred >= P.radix ** (order + 1) or irr_ok is False or (P.f[order] == 0 if sb == 1 else P.f[order] == P.b.zero):
+                chk.fail_input("Extension::Extension", "modulus-reducible", {"line": line, "irred": irred, "base": [qb, sb, birr]},
+                               "irreducible of degree %d over GF(%d)" % (order, qb), irred)
                 P = None
                 continue
             if mod is not None and irred != sum((c % p) * p ** i for i, c in enumerate(mod)):
@@ -1160,7 +1287,7 @@ def ext_part(chk, rng, tier, dist, drv=None):
             v = meta
             a = [int(x) for x in line.split()[2:]] + [0, 0, 0]
             chk.count((ctx, line), nontrivial=(a[0] != 0))
-            case = {"field": ctx, "irred": P.num(P.f[:P.k]) + P.f[P.k] * P.p ** P.k, "line": line}
+            case = {"field": ctx, "irred": P.fnum(), "line": line}
             if v == "pred":
                 mone = P.num(P.neg(P.one))
                 e = "%d%d%d%d" % (a[0] == 0, a[0] == 1, a[0] == mone, a[0] == a[1])
@@ -1175,7 +1302,7 @@ def ext_part(chk, rng, tier, dist, drv=None):
             if v == "initI":
                 e = a[0]
             elif v == "initS":
-                e = a[0] % P.p
+                e = a[0] % P.radix
             elif v == "assign":
                 e = a[0]
             else:
@@ -1185,7 +1312,7 @@ def ext_part(chk, rng, tier, dist, drv=None):
                 e = P.num(ee)
             if got != str(e):
                 chk.fail_input("Extension::" + v, "scalar", case, e, got, "result differs from polynomial arithmetic modulo the stored irreducible")
-            elif v in XCODE:
+            elif v in XCODE and isinstance(P, PF):
                 xq.append((ctx, line, got, "xop %d %d %d %d %d %d %d" % (P.p, P.k, case["irred"], XCODE[v], a[0], a[1], a[2])))
         elif kind == "eopa":
             if P is None:
@@ -1197,8 +1324,8 @@ def ext_part(chk, rng, tier, dist, drv=None):
             if ee is not None and got != str(P.num(ee)):
                 chk.fail_input("Extension::" + v, "alias " + pat, {"field": ctx, "line": line}, P.num(ee), got,
                                "the call with destination/operands aliased as in the pattern differs from polynomial arithmetic modulo the stored irreducible")
-            elif ee is not None and v in XCODE:
-                xq.append((ctx, line, got, "xop %d %d %d %d %d %d %d" % (P.p, P.k, P.num(P.f[:P.k]) + P.f[P.k] * P.p ** P.k, XCODE[v], ea, eb, ec)))
+            elif ee is not None and v in XCODE and isinstance(P, PF):
+                xq.append((ctx, line, got, "xop %d %d %d %d %d %d %d" % (P.p, P.k, P.fnum(), XCODE[v], ea, eb, ec)))
         elif kind == "gext":
             cls, p, k, bits, maxn, modout = meta
             ctx = "GFqExt%s<int32_t> GF(%d^%d)" % ("Fast" if cls == "fast" else "", p, k)
